@@ -396,8 +396,10 @@ def _is_boolish(s: S, depth=0) -> bool:
         return False
     if s.op in BOOL_LEAF_OPS:
         return True
-    if s.op in ("+", "*"):
+    if s.op == "+":
         return _is_boolish(s.args[0], depth + 1) or _is_boolish(s.args[1], depth + 1)
+    if s.op == "*":  # a product is a conjunction only when both factors are truth values
+        return _is_boolish(s.args[0], depth + 1) and _is_boolish(s.args[1], depth + 1)
     if s.op in ("phi", "ifexp"):
         return _is_boolish(s.args[1], depth + 1) and _is_boolish(s.args[2], depth + 1)
     if s.op in ("store", "sub", "loop"):
@@ -452,7 +454,7 @@ def boolwalk(root: S, bool_cells: Iterable[str] = ()) -> List[Leaf]:
         fn = _fn(s)
         if fn == "torch.logical_not":
             return go(a[1], -sign, path, reduced, part, guards, d)
-        if o in ("&", "and") or fn == "torch.logical_and" or (o == "*" and (_is_boolish(a[0]) or _is_boolish(a[1]))) or (o == "meth" and a[1] in ("logical_and",)):
+        if o in ("&", "and") or fn == "torch.logical_and" or (o == "*" and _is_boolish(a[0]) and _is_boolish(a[1])) or (o == "meth" and a[1] in ("logical_and",)):
             kids = list(a) if o in ("&", "and", "*") else ([a[0], a[2]] if o == "meth" else list(a[1:3]))
             e = eff("and", sign)
             for i, k in enumerate(kids):
@@ -610,7 +612,7 @@ def _connective(s: S):
     """-> ('and'|'or', kids) for boolean connective nodes, else None."""
     o, a = s.op, s.args
     fn = _fn(s)
-    if o in ("&", "and") or (o == "*" and (_is_boolish(a[0]) or _is_boolish(a[1]))):
+    if o in ("&", "and") or (o == "*" and _is_boolish(a[0]) and _is_boolish(a[1])):
         return "and", list(a)
     if fn == "torch.logical_and":
         return "and", list(a[1:3])
